@@ -67,6 +67,16 @@ func (P) Exec(line string) string {
 			toks = strings.Split(f[8], ",")
 		}
 		return runHS(c, toks)
+	case "prestart":
+		// C18 prestart <in|out> <n> <fail|ok>
+		if len(f) != 5 {
+			return "bad-op"
+		}
+		n, err := strconv.Atoi(f[3])
+		if err != nil || n < 0 || n > 50 || (f[4] != "fail" && f[4] != "ok") {
+			return "bad-op"
+		}
+		return runPrestart(f[2] == "in", n, f[4] == "fail")
 	case "leakhunt":
 		// C18 leakhunt <attempts> <seed>: backlog-heavy disconnect races on real
 		// peers; counts runs after which a peer goroutine was still alive.
@@ -218,7 +228,7 @@ func (P) Generate(g *core.Gen) {
 		}
 	}
 	// 2. random scripts, every configuration.
-	for i, n := 0, g.N(2500, 40000); i < n; i++ {
+	for i, n := 0, g.N(2000, 40000); i < n; i++ {
 		in := r.Bool()
 		ours := oursEdges[r.Intn(len(oursEdges))]
 		theirs := pverEdges[r.Intn(len(pverEdges))]
@@ -261,8 +271,19 @@ func (P) Generate(g *core.Gen) {
 		toks = finishScript(toks, ours)
 		g.Case(class, len(toks) > 1, hsLine(in, ours, allowSelf, reg, local, rej, toks))
 	}
-	// 3. pipeline scenarios: run on the real peer now; the observed trace goes on the line.
-	for i, n := 0, g.N(400, 6000); i < n; i++ {
+	// 3. messages queued while the handshake is still in progress.
+	for _, dir := range []string{"in", "out"} {
+		for _, mode := range []string{"fail", "ok"} {
+			for _, n := range []int{0, 1, 2, 7, 49, 50} {
+				g.Case("prestart-"+mode, n > 0, fmt.Sprintf("C18 prestart %s %d %s", dir, n, mode))
+			}
+			for i, k := 0, g.N(6, 60); i < k; i++ {
+				g.Case("prestart-"+mode, true, fmt.Sprintf("C18 prestart %s %d %s", dir, 1+r.Intn(50), mode))
+			}
+		}
+	}
+	// 4. pipeline scenarios: run on the real peer now; the observed trace goes on the line.
+	for i, n := 0, g.N(220, 6000); i < n; i++ {
 		c := pipeCfg{nProd: 1 + r.Intn(8), nMsg: 1 + r.Intn(12), seed: r.U64(), invCallers: r.Intn(3)}
 		switch x := r.Intn(20); {
 		case x < 9:
